@@ -38,6 +38,11 @@ def load_catalogue():
             meta = json.loads(m.read_text())
             out.append({'id': meta['id'],
                         'property': meta['breaks_property'],
+                        # a change that rewrites its function wholesale is
+                        # answered "undecided" (exit 2) by the restructuring
+                        # gate: accepted for the changes marked so, and
+                        # counted separately
+                        'allow_undecided': (d / 'undecided.txt').exists(),
                         'rule': '-', 'patch': str(d / 'patch.diff'),
                         'suite': 'SURVIVES', 'expect': 'fire',
                         'source': 'independent sub-agent',
@@ -130,8 +135,13 @@ def _run_variant(args):
         res[p] = {
             'status': ck.status,
             'error': ck.error,
+            # what the command reports: unlisted violations that passed the
+            # restructuring gate (none when the run is undecided)
             'keys': sorted({'%s|%s|%s' % (v.rule, v.function, v.construct)
-                            for v in ck.violations}),
+                            for v in (ck.unlisted if ck.status != 2
+                                      else [])} | (
+                {'%s|%s|%s' % (v.rule, v.function, v.construct)
+                 for v in getattr(ck, 'listed', [])})),
         }
     return variant['id'], 'ran', res
 
@@ -212,6 +222,8 @@ def run_catalogue(props, jobs=16, only=None):
             s['seeded_total'] += 1
             if fired:
                 s['seeded_fired'] += 1
+            elif r['status'] == 2 and v.get('allow_undecided'):
+                s['seeded_undecided'] = s.get('seeded_undecided', 0) + 1
             else:
                 s['failures'].append(
                     '%s: seeded variant not detected (%s)' % (
